@@ -353,18 +353,30 @@ def stroh(ctx):
                   and all(is_zero(x - y, deep=False) for x, y in zip(np.ravel(np.asarray(chk[i][1], dtype=object)), np.ravel(exp[i][1]))) for i in range(3))
         okr = okr and np.shape(chk[3][0]) == (6, 6) and all(is_zero(x - y) for x, y in zip(np.ravel(np.asarray(chk[3][1], dtype=object)), np.ravel(np.array(sp.eye(6).tolist(), dtype=object))))
         ctx.ob('STROH', loc + 'solve', 'the checks compare Σk A⊗L with the identity, Σk A⊗A and Σk L⊗L with zero, and the 6x6 completeness sum with the identity', bool(okr), node=sfn, key='check relations')
-    # the checks: four assertions in a try whose failure raises ValueError, before anything is stored
-    tries = [t for t in ast.walk(sfn) if isinstance(t, ast.Try)]
-    okg = False
-    for t in tries:
-        asserts = [a for a in t.body if isinstance(a, ast.Assert)]
-        handler_raises = any(isinstance(x, ast.Raise) and 'ValueError' in norm(x) for h in t.handlers for x in ast.walk(h))
-        stores = [st for st in sfn.body if isinstance(st, ast.Assign) and norm(st.targets[0]).startswith('self.__')]
-        if len(asserts) >= 4 and handler_raises and stores and all(st.lineno > t.end_lineno for st in stores):
-            okg = True
-            specs = [norm(a.test) for a in asserts]
-            okg = okg and sum(1 for sp_ in specs if 'np.identity(3' in sp_) >= 1 and sum(1 for sp_ in specs if 'np.zeros((3, 3)' in sp_) >= 2 and sum(1 for sp_ in specs if 'np.identity(6' in sp_) >= 1
-    ctx.ob('STROH', loc + 'solve', 'the four orthogonality / completeness relations (Σk A L = I, Σk A A = 0, Σk L L = 0, 6x6 completeness) are asserted before the solution is stored; failure raises ValueError', okg, node=sfn, key='checks')
+    # the checks guard the storage: with any one of them failing, solve() refuses and stores nothing
+    verd = []
+    for failing in range(1, max(len(chk), 4) + 1):
+        count = [0]
+
+        def allclose(a_, b_, **k_):
+            count[0] += 1
+            return count[0] != failing
+        o3 = SymObj(cls, dict(attrs), 'self')
+        o3.attrs['K_tensor'] = symarray('K', (3, 3), real=True)
+        ev3 = SymEval(aliases)
+        ev3.np_override = {'numpy.linalg.inv': lambda a_: NNI, 'numpy.linalg.eig': lambda N_: (PV, EV), 'numpy.real_if_close': lambda v, tol=None: v, 'numpy.allclose': allclose}
+        ev3.globals = {'VolterraDislocation': Base()}
+        try:
+            p3 = ev3.run_fn(sfn, [o3, 'C', 'B'], dict(kw))
+            refused = not [q for q in p3 if q.done == 'return']
+        except WouldRaise:
+            refused = True
+        except Opaque as e:
+            raise AnalysisError('Stroh.solve with check %d failing: %s' % (failing, e))
+        stored = [k_ for k_ in ('A', 'L', 'k', 'p') if o3.attrs.get('_Stroh__' + k_) is not None and attrs.get('_Stroh__' + k_) is None]
+        verd.append((failing, refused, stored))
+    ctx.ob('STROH', loc + 'solve', 'each of the four orthogonality / completeness relations guards the result: with any one of them failing the solution is refused and nothing is stored', len(chk) >= 4 and all(r_ and not st_ for f_, r_, st_ in verd),
+           str(verd), node=sfn, key='checks')
 
 
 def frame(ctx):
@@ -389,10 +401,17 @@ def frame(ctx):
             def vector_crystal_to_cartesian(self, v, box):
                 rec.append(('b_cart', v, box))
                 return B
-        obj = SymObj(cls, {'_VolterraDislocation__find_transform': lambda *a: (rec.append(('find',) + a) or TM)}, 'self')
+        def find(*a, **k):
+            # the class's own __find_transform(ξ_uvw, slip_hkl, m, n, box) or the public dislocation_system_transform(ξ_uvw, slip_hkl, m=, n=, box=, tol=)
+            names = ['xi', 'hkl', 'm', 'n', 'box', 'tol']
+            got = dict(zip(names, a))
+            got.update({{'ξ_uvw': 'xi', 'slip_hkl': 'hkl'}.get(kk, kk): v for kk, v in k.items()})
+            rec.append(('find', got.get('xi'), got.get('hkl'), got.get('m'), got.get('n'), got.get('box')))
+            return TM
+        obj = SymObj(cls, {'_VolterraDislocation__find_transform': find}, 'self')
         ev = SymEval(aliases)
         ev.skip = _is_cleanup
-        ev.globals = {'miller': Mil(), 'axes_check': lambda a: (rec.append(('axes_check', a)) or TM), 'Box': lambda: 'DEFAULTBOX'}
+        ev.globals = {'miller': Mil(), 'axes_check': lambda a: (rec.append(('axes_check', a)) or TM), 'Box': lambda: 'DEFAULTBOX', 'dislocation_system_transform': find}
         try:
             p = [q for q in ev.run_fn(sfn, [obj, Cst(), 'BURGERS'], dict(kw, box='BOX', m='y', n='z')) if q.done == 'return']
         except Opaque as e:
@@ -421,10 +440,10 @@ def frame(ctx):
         ctx.ob('FRAME', loc, '%s: m=\'y\', n=\'z\' give the unit axes and ξ = m × n' % tag, bool(ok), node=sfn, key=tag + ' mnxi')
     ctx.floor('FRAME', n, 4)
     for tag, kw in (('line without plane', dict(ξ_uvw='XI')), ('Miller indices together with a transform', dict(ξ_uvw='XI', slip_hkl='HKL', transform='T')), ('axes together with transform', dict(axes='A', transform='T'))):
-        obj = SymObj(cls, {'_VolterraDislocation__find_transform': lambda *a: TM}, 'self')
+        obj = SymObj(cls, {'_VolterraDislocation__find_transform': lambda *a, **k: TM}, 'self')
         ev = SymEval(aliases)
         ev.skip = _is_cleanup
-        ev.globals = {'miller': PyStub(), 'axes_check': lambda a: TM, 'Box': lambda: 'DEFAULTBOX'}
+        ev.globals = {'miller': PyStub(), 'axes_check': lambda a: TM, 'Box': lambda: 'DEFAULTBOX', 'dislocation_system_transform': lambda *a, **k: TM}
         try:
             paths = ev.run_fn(sfn, [obj, PyStub(), 'B'], dict(kw, box='BOX'))
             ok = not [q for q in paths if q.done == 'return']
@@ -437,7 +456,7 @@ def frame(ctx):
     mask_on(ctx, cl[0], [sp.Rational(5, 10 ** 10), -sp.Rational(5, 10 ** 10), sp.Integer(0), sp.Rational(1, 10 ** 21)], {'tol': sp.Rational(1, 10 ** 8)}, 'FRAME', loc,
             'the Burgers round-off removes only components that are tiny relative to the largest one (a Burgers vector given in metres is kept)', [False, False, True, True])
     # __find_transform and its sibling
-    ftn = ctx.fn(VD, 'VolterraDislocation.__find_transform')
+    ftn = ctx.fn_opt(VD, 'VolterraDislocation.__find_transform')      # absent when solve() uses the public function directly (routing is judged above either way)
     xi_c = symarray('x', (3,), real=True)
     nn_c = symarray('h', (3,), real=True)
     NR = sp.Symbol('nrm', positive=True)
@@ -458,20 +477,23 @@ def frame(ctx):
             return nn_c
     ev = SymEval(aliases)
     ev.np_override = {'numpy.linalg.norm': lambda v: NR, 'numpy.isclose': lambda *a, **k: True}
-    r1 = [q for q in ev.run_fn(ftn, [SymObj(cls, {}, 'self'), 'XI', 'HKL', mv, nv, Bx()], {}) if q.done == 'return']
-    ctx.need(len(r1) == 1, '__find_transform does not reduce to one path')
-    got = np.asarray(r1[0].ret, dtype=object)
     xh = xi_c / NR
     rows = np.array([np.cross(nn_c, xh), nn_c, xh], dtype=object)
     Tm = np.array([mv, nv, np.cross(mv, nv)], dtype=object).T
-    ctx.ob('FRAME', VD + '::VolterraDislocation.__find_transform', 'rows (n̂×ξ̂, n̂, ξ̂) of the slip system, re-expressed in the (m, n, m×n) frame: T = [m n m×n]·rows', got.shape == (3, 3) and equal(got, Tm.dot(rows)), node=ftn, key='find')
+    if ftn is not None:
+        r1 = [q for q in ev.run_fn(ftn, [SymObj(cls, {}, 'self'), 'XI', 'HKL', mv, nv, Bx()], {}) if q.done == 'return']
+        ctx.need(len(r1) == 1, '__find_transform does not reduce to one path')
+        got = np.asarray(r1[0].ret, dtype=object)
+        ctx.ob('FRAME', VD + '::VolterraDislocation.__find_transform', 'rows (n̂×ξ̂, n̂, ξ̂) of the slip system, re-expressed in the (m, n, m×n) frame: T = [m n m×n]·rows', got.shape == (3, 3) and equal(got, Tm.dot(rows)), node=ftn, key='find')
     dfn = ctx.fn(DST, 'dislocation_system_transform')
     ev = SymEval(module_aliases(ctx.mod(DST)))
     ev.np_override = {'numpy.linalg.norm': lambda v: NR, 'numpy.isclose': lambda *a, **k: True}
     ev.globals = {'miller': Mil2(), 'Box': lambda: 'BOX'}
     r2 = [q for q in ev.run_fn(dfn, ['XI', 'HKL'], dict(m=mv, n=nv, box='BOX')) if q.done == 'return']
     ctx.need(len(r2) == 1, 'dislocation_system_transform does not reduce to one path')
-    ctx.ob('FRAME', DST + '::dislocation_system_transform', 'the stand-alone transform function agrees with the solver\'s', equal(np.asarray(r2[0].ret, dtype=object), got), node=dfn, key='sibling')
+    got2 = np.asarray(r2[0].ret, dtype=object)
+    ctx.ob('FRAME', DST + '::dislocation_system_transform', 'the public transform function: rows (n̂×ξ̂, n̂, ξ̂) of the slip system re-expressed in the (m, n, m×n) frame (the same matrix as the solver\'s own route)',
+           got2.shape == (3, 3) and equal(got2, Tm.dot(rows)), node=dfn, key='sibling')
     # m, n validation
     mn = ctx.fn(VD, 'VolterraDislocation.__mn_check')
     for tag, mm, nn_, accept in (("'x','y'", 'x', 'y', True), ('unit vectors', [0, 1, 0], [0, 0, 1], True), ('n not a unit vector', [1, 0, 0], [0, 2, 0], False), ('m not a unit vector', [2, 0, 0], [0, 1, 0], False),
